@@ -28,7 +28,20 @@ func (p *Prog) unboxArms(f *ssa.Function) (map[string]*ssa.Function, ssa.CallIns
 	unbox := p.fn("klog", "Unbox")
 	var call ssa.CallInstruction
 	n := 0
-	for _, g := range append([]*ssa.Function{f}, helpersCalledFrom([]*ssa.Function{f})...) {
+	scope := append([]*ssa.Function{f}, helpersCalledFrom([]*ssa.Function{f})...)
+	found := false
+	for _, g := range scope {
+		eachInstr(g, func(in ssa.Instruction) {
+			if c, ok := in.(ssa.CallInstruction); ok && sameFn(staticCallee(c), unbox) {
+				found = true
+			}
+		})
+	}
+	if !found {
+		// the dispatch sits in a closure of f (a predicate handed to a helper)
+		scope = withAnons(f)
+	}
+	for _, g := range scope {
 		eachInstr(g, func(in ssa.Instruction) {
 			if c, ok := in.(ssa.CallInstruction); ok && sameFn(staticCallee(c), unbox) {
 				call = c
